@@ -9,11 +9,15 @@ model ref/selection_ref.py:
             counter by one, through every override (R-ONCE);
  R-BUFFERS  cold initialisation allocates, and warm start re-extends, every result
             buffer to the resolved n_to_select on the selection axis (symbolic
-            shapes for None / int / float requests);
+            shapes for None / int / float requests); a feature selector stores no
+            targets even when it is given some;
  R-EXCL     already selected candidates are masked before the argmax, and the
-            threshold logic (absolute / relative) equals the reference;
+            threshold logic (absolute / relative) equals the reference; every
+            concrete selector class picks with that shared step (an override is
+            analysed, not trusted);
  R-TRUNC    on a threshold stop every S-sized buffer is cut to the number of
-            selections made, then the support mask is rebuilt;
+            selections made - a prefix of the buffer the search filled, not of the
+            caller's array - then the support mask is rebuilt;
  R-SUPPORT  support_ = mask of selected_idx_ over the selection axis;
             get_support / transform read exactly that;
  R-RESOLVE  the raw hyper-parameter n_to_select is read only in GreedySelector.fit;
